@@ -165,8 +165,11 @@ def gen_unwind(rng, model):
     o = {'path': p}
     if rng.random() < 0.7:
         o['preserveNullAndEmptyArrays'] = True
-    if not model and rng.random() < 0.3:
-        o['includeArrayIndex'] = 'ix'
+    if rng.random() < 0.4:
+        # a dotted index name goes through sub-documents (there or created); 'arr.ix' / 'j.ix' go
+        # through the unwound field itself (outside the heap model, direct oracles only)
+        o['includeArrayIndex'] = rng.choice(['ix', 'ix', 'a.ix', 'a.y.ix', 'm.ix', 'k.ix', 'arr.ix',
+                                             'k', 'arr'])
     return {'$unwind': o}
 
 
